@@ -38,6 +38,7 @@ pub fn strategy() -> BoxedStrategy<Req> {
         2 => scalar_canonical().prop_map(|b| Req::new("gp.from_repr", vec![b.to_vec()])),
         1 => (scalar_canonical(), 0u8..3).prop_map(|(mut b, k)| { b[31] |= [0x80u8, 0x40, 0x10][k as usize]; Req::new("gp.from_repr", vec![b.to_vec()]) }),
         2 => u512_interesting().prop_map(|b| Req::new("gp.from_uniform", vec![b.to_vec()])),
+        3 => super::c06::map_input().prop_map(|b| Req::new("gp.rs_group", vec![b.to_vec()])),
         1 => u512_interesting().prop_map(|b| Req::new("gp.random", vec![b.to_vec()])),
         1 => Just(Req::new("gp.consts", vec![])),
         6 => encoding_strategy(),
@@ -62,6 +63,7 @@ pub fn classify(req: &Req, resp: &Resp) -> Vec<&'static str> {
             if b[0] == 0 { l.push("undecodable"); } else if b[66] == 0 { l.push("torsion-carrying-point-refused-by-subgroup"); }
         }
         ("gp.rs_encoding", Resp::Ok(b)) => { if b[0] == 0 { l.push("undecodable"); } }
+        ("gp.rs_group", Resp::Ok(_)) => l.push("ristretto-identity-with-torsion-representative"),
         ("gp.cofactor", Resp::Ok(b)) => { if b[32] == 0 { l.push("torsion-carrying-point"); } }
         ("gp.subgroup_ops", Resp::Rej) => l.push("torsion-carrying-point-refused-by-subgroup"),
         ("gp.subgroup_ops", _) => l.push("subgroup-operators"),
